@@ -228,6 +228,7 @@ def r1b(c, reg):
                     # only the one scratch field the property exempts: <rule>['attrs']['match'] = ...
                     wn = s_.root[3]
                     only_match = acl_scratch_write(repo, wn)
+                    tgt = wn.targets[0] if isinstance(wn, ast.Assign) else None
                     if only_match:
                         c.holds("C20.R1b", at, construct, f"allowed: {allowed[(rmod, rq, rp)]}")
                     else:
@@ -298,6 +299,33 @@ def hidden_state_sites(mod_tree, funcs, module_names):
                     b = b.value
                 if isinstance(b, ast.Name) and b.id not in local and b.id in module_names:
                     out.append((n, f"`{norm(n)[:50]}` mutates module-level `{b.id}` in {fn.name}"))
+    # class-level mutable attributes written through self / cls: one object shared by every instance (and every provider the connector hands out)
+    fset = {id(f) for f in funcs}
+    for cls in [n for n in ast.walk(mod_tree) if isinstance(n, ast.ClassDef)]:
+        shared = set()
+        for st in cls.body:
+            v = getattr(st, "value", None)
+            tg = st.targets if isinstance(st, ast.Assign) else ([st.target] if isinstance(st, ast.AnnAssign) else [])
+            if v is not None and (isinstance(v, (ast.Dict, ast.List, ast.Set)) or (isinstance(v, ast.Call) and call_name(v).split(".")[-1] in ("dict", "list", "set", "odict", "OrderedDict", "defaultdict"))):
+                shared |= {t.id for t in tg if isinstance(t, ast.Name)}
+        if not shared:
+            continue
+        own = {norm(t)[5:] for f in cls.body if isinstance(f, ast.FunctionDef) for st in ast.walk(f) if isinstance(st, (ast.Assign, ast.AnnAssign))
+               for t in (st.targets if isinstance(st, ast.Assign) else [st.target]) if isinstance(t, ast.Attribute) and norm(t).startswith("self.")}
+        for f in cls.body:
+            if not isinstance(f, ast.FunctionDef) or id(f) not in fset:
+                continue
+            for n in walk_no_nested(f):
+                t = None
+                if isinstance(n, (ast.Assign, ast.AugAssign)):
+                    for t_ in (n.targets if isinstance(n, ast.Assign) else [n.target]):
+                        if isinstance(t_, ast.Subscript):
+                            t = t_.value
+                elif isinstance(n, ast.Call) and isinstance(n.func, ast.Attribute) and n.func.attr in ("append", "extend", "update", "add", "pop", "clear", "setdefault", "insert", "remove", "popitem"):
+                    t = n.func.value
+                # chained assignment `x = self.A[k] = v`
+                if t is not None and isinstance(t, ast.Attribute) and isinstance(t.value, ast.Name) and t.value.id in ("self", "cls") and t.attr in shared and t.attr not in own:
+                    out.append((n, f"write to the class-level container `{cls.name}.{t.attr}` in {f.name}"))
     return out
 
 
@@ -370,12 +398,25 @@ def r3(c):
             # hand-written memos
             params = [a.arg for a in fn.args.args if a.arg not in ("self", "cls")]
             pv = None
+            # a memo is recognised by what it is, not by its name: a module-level mapping created empty that this function both fills and reads
+            empties = set()
+            for st_ in m.tree.body:
+                if isinstance(st_, (ast.Assign, ast.AnnAssign)) and getattr(st_, "value", None) is not None:
+                    v_ = st_.value
+                    if (isinstance(v_, ast.Dict) and not v_.keys) or (isinstance(v_, ast.Call) and call_name(v_).split(".")[-1] in ("dict", "odict", "OrderedDict", "defaultdict", "WeakValueDictionary")
+                                                                      and not [a_ for a_ in v_.args if not isinstance(a_, (ast.Name, ast.Lambda))]):
+                        for t_ in (st_.targets if isinstance(st_, ast.Assign) else [st_.target]):
+                            if isinstance(t_, ast.Name):
+                                empties.add(t_.id)
+            filled = {x.value.id for x in walk_no_nested(fn) if isinstance(x, ast.Subscript) and isinstance(x.ctx, ast.Store) and isinstance(x.value, ast.Name)} | \
+                {x.func.value.id for x in walk_no_nested(fn) if isinstance(x, ast.Call) and isinstance(x.func, ast.Attribute) and x.func.attr == "setdefault" and isinstance(x.func.value, ast.Name)}
+            memos = {nm for nm in empties & filled if nm in mod_names}
             for n in walk_no_nested(fn):
                 key = None
-                if isinstance(n, ast.Subscript) and isinstance(n.value, ast.Name) and n.value.id in mod_names and n.value.id.isupper() is False and "cache" in n.value.id.lower():
+                if isinstance(n, ast.Subscript) and isinstance(n.value, ast.Name) and n.value.id in memos:
                     key = n.slice
-                elif isinstance(n, ast.Call) and isinstance(n.func, ast.Attribute) and isinstance(n.func.value, ast.Name) and n.func.value.id in mod_names \
-                        and "cache" in n.func.value.id.lower() and n.func.attr in ("get", "setdefault") and n.args:
+                elif isinstance(n, ast.Call) and isinstance(n.func, ast.Attribute) and isinstance(n.func.value, ast.Name) and n.func.value.id in memos \
+                        and n.func.attr in ("get", "setdefault") and n.args:
                     key = n.args[0]
                 if key is None or not params:
                     continue
